@@ -49,7 +49,8 @@ def main(argv=None):
 
   results, stopped_early, wall = runner.explore(
       pid, vseed, tier, n_runs, jobs, budget, chunk=cfg.get("chunk", 8),
-      start=a.start, stop_on_violation=a.first)
+      start=a.start,
+      stop_on_violation=(lambda v: runner.match_known(pid, v, runner.load_known()) is None) if a.first else False)
   cov, shapes, nontriv, inconc, herr, viol = runner.aggregate(results)
   n_ok = len(results) - len(herr)
 
